@@ -1,5 +1,7 @@
 import DendroModel.Model.C11
 import DendroModel.Theory.C11Fresh
+import DendroModel.Theory.C11Pass
+import DendroModel.Gen.C11Kernels
 /-! C11 — theorems about the store model of `Model/C11.lean` (the definitions the driver `drv_c11` runs). -/
 namespace DendroModel.C11.Aux
 open DendroModel.C11
@@ -700,6 +702,7 @@ def covered : Op → Bool
   | .add _ (.trees _) => false
   | .lclone _ _ | .mclone _ _ | .lmig _ _ _ | .lrec _ _ | .mmig _ _ _ | .mrec _ _ | .dsunify _ _ | .dsread _ _ _ _ => false
   | .readx _ _ _ | .tlget _ _ _ | .tget _ _ _ | .mget _ _ _ _ | .chain _ => false
+  | .tassign _ _ _ | .lassign _ _ _ | .massign _ _ _ | .mcomb _ _ _ | .tpurge _ | .lpurge _ | .mpurge _ => false
   | _ => true
 
 /-- clauses (a),(c) hold in the empty world -/
@@ -1027,6 +1030,13 @@ theorem closed_step_partial (s : Store) (op : Op) (h : Inv s) (hv : valid s op =
   | dsunify d n => simp [covered] at hc
   | dsread d taxa rows trees => simp [covered] at hc
   | taadd n t => simp only [step]; exact h
+  | tassign t n a => simp [covered] at hc
+  | lassign l n a => simp [covered] at hc
+  | massign m n a => simp [covered] at hc
+  | mcomb m m2 a => simp [covered] at hc
+  | tpurge t => simp [covered] at hc
+  | lpurge l => simp [covered] at hc
+  | mpurge m => simp [covered] at hc
   | chain gs => simp [covered] at hc
   | readx l pre docs => simp [covered] at hc
   | tlget n pre docs => simp [covered] at hc
@@ -1582,6 +1592,213 @@ theorem inv_migrateTl {s : Store} (h : Inv s) (l n : Nat) (u : Bool) (hv : tlReb
     rw [b] at ht
     rw [a]; exact nn t ht
   · intro d a q; exact absurd trivial q
+
+/-! ### the `taxon_namespace` setter followed by `update_taxon_namespace()` (the 'add' strategy at tree, list and matrix level), matrix
+combination, `purge_taxon_namespace` -/
+
+theorem inv_addTree {s : Store} (h : Inv s) (t n : Nat)
+    (hok : (s.tree t).ns = n ∨ ∀ l, t ∉ (s.tl l).trees) : Inv (addTree s t n) := by
+  simp only [addTree]
+  have g := grows_addAll n (s.tree t).taxa s
+  apply inv_setTree (inv_grows g h)
+  · intro x hx; exact mem_addAll n _ s x hx
+  · intro l hl
+    rw [g.tl] at hl ⊢
+    rcases hok with e | f
+    · rw [← e]; exact (h.listOk l t hl).symm
+    · exact absurd hl (f l)
+
+theorem invW_addTree {P Q : Nat → Prop} {s : Store} (h : InvW P Q s) (t n : Nat)
+    (hl : ∀ l, P l → t ∈ (s.tl l).trees → (s.tl l).ns = n) :
+    InvW P Q (addTree s t n) ∧ (addTree s t n).tl = s.tl
+      ∧ (addTree s t n).mat = s.mat ∧ (addTree s t n).ds = s.ds
+      ∧ (addTree s t n).nTl = s.nTl ∧ (addTree s t n).nDs = s.nDs
+      ∧ (addTree s t n).nMat = s.nMat ∧ (addTree s t n).nTree = s.nTree
+      ∧ ((addTree s t n).tree t).ns = n
+      ∧ (∀ t', t' ≠ t → (addTree s t n).tree t' = s.tree t')
+      ∧ (∀ k, mem s k ⊆ mem (addTree s t n) k) := by
+  simp only [addTree]
+  have g := grows_addAll n (s.tree t).taxa s
+  refine ⟨?_, g.tl, g.mat, g.ds, g.nTl, g.nDs, g.nMat, g.nTree, by simp [setTree, upd], ?_, fun k x hx => g.mem k x hx⟩
+  · apply invW_setTree (invW_grows g h)
+    · intro x hx; exact mem_addAll n _ s x hx
+    · intro l p hin; rw [g.tl] at hin ⊢; exact hl l p hin
+  · intro t' ht'
+    simp only [setTree, upd, ht', if_false]
+    exact congrFun g.tree t'
+
+theorem invW_addTrees {P Q : Nat → Prop} (n : Nat) : ∀ (ts : List Nat) {s : Store}, InvW P Q s →
+    (∀ t, t ∈ ts → ∀ l, P l → t ∈ (s.tl l).trees → (s.tl l).ns = n) →
+    InvW P Q (addTrees s n ts) ∧ (addTrees s n ts).tl = s.tl
+      ∧ (addTrees s n ts).mat = s.mat ∧ (addTrees s n ts).ds = s.ds
+      ∧ (addTrees s n ts).nTl = s.nTl ∧ (addTrees s n ts).nDs = s.nDs
+      ∧ (addTrees s n ts).nMat = s.nMat ∧ (addTrees s n ts).nTree = s.nTree
+      ∧ (∀ t, t ∈ ts → ((addTrees s n ts).tree t).ns = n)
+      ∧ (∀ t, ((addTrees s n ts).tree t).ns = (s.tree t).ns ∨ ((addTrees s n ts).tree t).ns = n)
+      ∧ (∀ k, mem s k ⊆ mem (addTrees s n ts) k)
+  | [], s, h, _ => ⟨h, rfl, rfl, rfl, rfl, rfl, rfl, rfl, by simp, fun _ => Or.inl rfl, fun _ _ hx => hx⟩
+  | t :: ts, s, h, hl => by
+    simp only [addTrees]
+    obtain ⟨i1, a1, b1, c1, d1, e1, f1, g1, n1, o1, m1⟩ := invW_addTree h t n (hl t (by simp))
+    obtain ⟨i2, a2, b2, c2, d2, e2, f2, g2, n2, o2, m2⟩ := invW_addTrees n ts i1
+      (fun t' ht' l p hin => by rw [a1] at hin ⊢; exact hl t' (by simp [ht']) l p hin)
+    refine ⟨i2, a2.trans a1, b2.trans b1, c2.trans c1, d2.trans d1, e2.trans e1, f2.trans f1, g2.trans g1, ?_, ?_,
+      fun k x hx => m2 k (m1 k hx)⟩
+    · intro t' ht'
+      simp at ht'
+      rcases ht' with e | ht'
+      · subst e
+        rcases o2 t' with o | o
+        · rw [o]; exact n1
+        · exact o
+      · exact n2 t' ht'
+    · intro t'
+      rcases o2 t' with o | o
+      · by_cases e : t' = t
+        · subst e; right; rw [o]; exact n1
+        · left; rw [o, o1 t' e]
+      · exact Or.inr o
+
+/-- `tl.taxon_namespace = n; tl.update_taxon_namespace()` with list `l` (and data sets failing `Q`) exempt while it runs -/
+theorem invW_addTl {P Q : Nat → Prop} {s : Store} (h : InvW P Q s) (l n : Nat)
+    (hnP : ¬ P l)
+    (hds : ∀ d a, Q d → (s.ds d).att = some a → l ∈ (s.ds d).tls → a = n)
+    (hsh : ∀ t, t ∈ (s.tl l).trees → ∀ l', P l' → t ∈ (s.tl l').trees → (s.tl l').ns = n) :
+    InvW P Q (addTl s l n)
+      ∧ ((addTl s l n).tl l).ns = n ∧ ((addTl s l n).tl l).trees = (s.tl l).trees
+      ∧ (∀ l', l' ≠ l → (addTl s l n).tl l' = s.tl l')
+      ∧ (addTl s l n).mat = s.mat ∧ (addTl s l n).ds = s.ds
+      ∧ (addTl s l n).nTl = s.nTl ∧ (addTl s l n).nDs = s.nDs
+      ∧ (addTl s l n).nMat = s.nMat ∧ (addTl s l n).nTree = s.nTree
+      ∧ (∀ t, t ∈ (s.tl l).trees → ((addTl s l n).tree t).ns = n)
+      ∧ (∀ t, ((addTl s l n).tree t).ns = (s.tree t).ns ∨ ((addTl s l n).tree t).ns = n)
+      ∧ (∀ k, mem s k ⊆ mem (addTl s l n) k) := by
+  simp only [addTl]
+  have hw : InvW P Q { s with tl := upd s.tl l { (s.tl l) with ns := n } } := by
+    obtain ⟨h1, h2, h3, h4, h5, h6, h7, h8⟩ := h
+    refine ⟨h1, h2, ?_, ?_, ?_, h6, ?_, h8⟩
+    · intro l' p t ht
+      have ne : l' ≠ l := fun e => hnP (e ▸ p)
+      simp only [upd, ne, if_false] at ht ⊢
+      exact h3 l' p t ht
+    · intro d a q ha
+      have := h4 d a q ha
+      refine ⟨fun l' hl' => ?_, this.2⟩
+      simp only [upd]
+      split
+      · next e => subst e; exact (hds d a q ha hl').symm
+      · exact this.1 l' hl'
+    · intro l' hl'
+      simp only [upd]
+      split
+      · next e => subst e; exact h5 l' hl'
+      · exact h5 l' hl'
+    · intro l' t ht
+      simp only [upd] at ht
+      split at ht
+      · next e => subst e; exact h7 l' t ht
+      · exact h7 l' t ht
+  obtain ⟨i, a, b, c, d, e, f, g, nn, o, m⟩ := invW_addTrees (P := P) (Q := Q) n (s.tl l).trees hw (by
+    intro t ht l' p hin
+    have ne : l' ≠ l := fun e => hnP (e ▸ p)
+    simp only [upd, ne, if_false] at hin ⊢
+    exact hsh t ht l' p hin)
+  refine ⟨i, ?_, ?_, ?_, b, c, d, e, f, g, nn, o, m⟩
+  · rw [a]; simp [upd]
+  · rw [a]; simp [upd]
+  · intro l' ne; rw [a]; simp [upd, ne]
+
+/-- `tl.taxon_namespace = n; tl.update_taxon_namespace()` inside the ownership domain -/
+theorem inv_addTl {s : Store} (h : Inv s) (l n : Nat) (hv : tlRebindOk s l n none = true) : Inv (addTl s l n) := by
+  have hcase : (s.tl l).ns = n ∨ ((∀ t, t ∈ (s.tl l).trees → ∀ l', l' ≠ l → t ∉ (s.tl l').trees)
+      ∧ ∀ d a, (s.ds d).att = some a → l ∈ (s.ds d).tls → a = n) := by
+    simp only [tlRebindOk, Bool.or_eq_true, beq_iff_eq, Bool.and_eq_true, List.all_eq_true] at hv
+    rcases hv with e | ⟨f, g⟩
+    · exact Or.inl e
+    · right
+      refine ⟨fun t ht l' ne => free_of_freeTree h (f t ht) l' (by simp [ne]), ?_⟩
+      intro d a ha hm
+      exact tlFree_fact h g d a (by simp) ha hm
+  obtain ⟨i, a, b, c, _, _, _, _, _, _, nn, _, _⟩ := invW_addTl (P := fun l' => l' ≠ l) (Q := fun _ => True)
+    (invW_of_inv _ _ h) l n (by simp)
+    (by
+      intro d a _ ha hm
+      rcases hcase with e | ⟨_, g⟩
+      · rw [← e]; exact ((h.dsOk d a ha).1 l hm).symm
+      · exact g d a ha hm)
+    (by
+      intro t ht l' ne hin
+      rcases hcase with e | ⟨f, _⟩
+      · rw [← e, ← h.listOk l t ht]; exact (h.listOk l' t hin).symm
+      · exact absurd hin (f t ht l' ne))
+  apply inv_of_invW i
+  · intro l' hn t ht
+    have e : l' = l := by simpa using hn
+    subst e
+    rw [b] at ht
+    rw [a]; exact nn t ht
+  · intro d a q; exact absurd trivial q
+
+
+theorem grows_addKeys (n : Nat) : ∀ (xs : List Nat) (s : Store), Grows s (xs.foldl (fun acc x => addMember acc n x) s)
+  | [], s => Grows.refl s
+  | x :: xs, s => by
+    simp only [List.foldl_cons]
+    exact (grows_addMember s n x).trans (grows_addKeys n xs _)
+
+theorem mem_addKeys (n : Nat) : ∀ (xs : List Nat) (s : Store) (y : Nat), y ∈ xs → y ∈ mem (xs.foldl (fun acc x => addMember acc n x) s) n
+  | [], s, y => by simp
+  | x :: xs, s, y => by
+    intro h; simp at h
+    simp only [List.foldl_cons]
+    rcases h with h | h
+    · subst h; exact (grows_addKeys n xs _).mem _ _ (mem_addMember s n y)
+    · exact mem_addKeys n xs _ y h
+
+/-- `m.taxon_namespace = n; m.update_taxon_namespace()` inside the ownership domain -/
+theorem inv_addMat {s : Store} (h : Inv s) (m n : Nat)
+    (hds : ∀ d a, (s.ds d).att = some a → m ∈ (s.ds d).mats → a = n) : Inv (addMat s m n) := by
+  simp only [addMat]
+  have g := grows_addKeys n (s.mat m).keys s
+  obtain ⟨⟨h1, h2, h3, h4⟩, h5, h6, h7, h8⟩ := inv_grows g h
+  refine ⟨⟨h1, ?_, h3, ?_⟩, h5, h6, h7, h8⟩
+  · intro m' x hx
+    simp only [upd] at hx ⊢
+    split at hx
+    · next e => simp only [e, if_true]; exact mem_addKeys n _ s x hx
+    · next e => simp only [e, if_false]; exact h2 m' x hx
+  · intro d a ha
+    have := h4 d a ha
+    refine ⟨this.1, fun m' hm' => ?_⟩
+    simp only [upd]
+    split
+    · next e =>
+      subst e
+      have ha' : (s.ds d).att = some a := by rw [← g.ds]; exact ha
+      have hm'' : m' ∈ (s.ds d).mats := by rw [← g.ds]; exact hm'
+      exact (hds d a ha' hm'').symm
+    · exact this.2 m' hm'
+
+/-- `purge_taxon_namespace()`: closure survives exactly when every object bound to the purged namespace has all its taxa among the
+kept ones (the caller is the only user of the namespace, or the others refer to a subset) -/
+theorem inv_purge {s : Store} (h : Inv s) (n : Nat) (keep : List Nat)
+    (ht : ∀ t x, (s.tree t).ns = n → some x ∈ (s.tree t).taxa → x ∈ keep)
+    (hm : ∀ m x, (s.mat m).ns = n → x ∈ (s.mat m).keys → x ∈ keep) : Inv (purge s n keep) := by
+  obtain ⟨⟨h1, h2, h3, h4⟩, h5, h6, h7, h8⟩ := h
+  have hmem : ∀ k x, x ∈ mem s k → (k = n → x ∈ keep) → x ∈ mem (purge s n keep) k := by
+    intro k x hx hk
+    simp only [purge, mem, upd]
+    split
+    · next e =>
+      subst e
+      simp only [List.mem_filter, List.contains_iff_mem] 
+      exact ⟨hx, by simpa using hk rfl⟩
+    · exact hx
+  refine ⟨⟨?_, ?_, h3, h4⟩, h5, h6, h7, h8⟩
+  · intro t x hx
+    exact hmem _ x (h1 t x hx) (fun e => ht t x e hx)
+  · intro m x hx
+    exact hmem _ x (h2 m x hx) (fun e => hm m x e hx)
 
 /-! ### `DataSet.unify_taxon_namespaces` -/
 
@@ -2166,6 +2383,58 @@ theorem closed_step (s : Store) (op : Op) (h : Inv s) (hv : valid s op = true) :
         rcases mergeKeys_sub _ _ x hx with hx | hx
         · simp at hx
         · exact m2 x hx
+    | tassign t n a =>
+      simp only [owner] at ho
+      cases a with
+      | true =>
+        simp only [step]
+        split
+        · exact h
+        · exact inv_migrateTree h t n true [] (ok_of_rebindOk_none h ho)
+      | false => simp only [step]; exact inv_addTree h t n (ok_of_rebindOk_none h ho)
+    | lassign l n a =>
+      simp only [owner] at ho
+      cases a with
+      | true =>
+        simp only [step]
+        split
+        · exact h
+        · exact inv_migrateTl h l n true ho
+      | false => simp only [step]; exact inv_addTl h l n ho
+    | massign m n a =>
+      simp only [owner, Bool.or_eq_true, Bool.and_eq_true, beq_iff_eq] at ho
+      have hds : ∀ d a', (s.ds d).att = some a' → m ∈ (s.ds d).mats → a' = n := by
+        rcases ho with e | ⟨f, _⟩
+        · intro d a' ha hm; rw [← e]; exact ((h.dsOk d a' ha).2 m hm).symm
+        · exact matFree_fact h f
+      cases a with
+      | true =>
+        simp only [step]
+        split
+        · exact h
+        · next ne =>
+          rcases ho with e | ⟨_, ok⟩
+          · exact absurd e ne
+          · have ok' : (migrateMat s m n true []).2.2 = true := by simpa using ok
+            exact inv_migrateMat h m n true [] ok' hds
+      | false => simp only [step]; exact inv_addMat h m n hds
+    | mcomb m m2 a =>
+      simp only [step]
+      split
+      · next e =>
+        cases a with
+        | false => exact h
+        | true =>
+          simp only [if_true]
+          apply inv_setKeys h m
+          intro x hx
+          rcases mergeKeys_sub _ _ x hx with hx | hx
+          · exact h.matOk m x hx
+          · rw [← e]; exact h.matOk m2 x hx
+      · exact h
+    | tpurge t => simp [owner] at ho
+    | lpurge l => simp [owner] at ho
+    | mpurge m => simp [owner] at ho
     | _ => simp [covered] at hc
 
 /-- a history every step of which is inside the ownership domain -/
@@ -2355,39 +2624,9 @@ theorem migrate_injective_on_labels_partial (s : Store) (n : Nat) (cs : Bool) (l
 
 /-! ## clause (b) for whole migrations: `mapTaxa` with a shared memo -/
 
-/-- position-wise relation between the taxon references of an object before and after a pass: same length, a node without
-taxon stays without, a node with taxon `x` gets a taxon `y` with `R x y` -/
-def related (R : Nat → Nat → Prop) : List (Option Nat) → List (Option Nat) → Prop
-  | [], [] => True
-  | none :: xs, none :: ys => related R xs ys
-  | some x :: xs, some y :: ys => R x y ∧ related R xs ys
-  | _, _ => False
+-- `related`, `Aux.related_mono`, `Aux.related_length`, `Aux.related_get` live in `Theory/C11Pass.lean`
 
 namespace Aux
-
-theorem related_mono {R R' : Nat → Nat → Prop} :
-    ∀ (xs ys : List (Option Nat)), (∀ x y, some x ∈ xs → R x y → R' x y) → related R xs ys → related R' xs ys
-  | [], [], _, _ => trivial
-  | [], _ :: _, _, hr => by simp [related] at hr
-  | none :: xs, [], _, hr => by simp [related] at hr
-  | some _ :: xs, [], _, hr => by simp [related] at hr
-  | none :: xs, none :: ys, h, hr => by
-    simp only [related] at hr ⊢; exact related_mono xs ys (fun x y hx => h x y (by simp [hx])) hr
-  | none :: xs, some _ :: ys, _, hr => by simp [related] at hr
-  | some _ :: xs, none :: ys, _, hr => by simp [related] at hr
-  | some x :: xs, some y :: ys, h, hr => by
-    simp only [related] at hr ⊢
-    exact ⟨h x y (by simp) hr.1, related_mono xs ys (fun x y hx => h x y (by simp [hx])) hr.2⟩
-
-theorem related_length {R : Nat → Nat → Prop} : ∀ (xs ys : List (Option Nat)), related R xs ys → xs.length = ys.length
-  | [], [], _ => rfl
-  | [], _ :: _, hr => by simp [related] at hr
-  | none :: xs, [], hr => by simp [related] at hr
-  | some _ :: xs, [], hr => by simp [related] at hr
-  | none :: xs, none :: ys, hr => by simp only [related] at hr; simp [related_length xs ys hr]
-  | none :: xs, some _ :: ys, hr => by simp [related] at hr
-  | some _ :: xs, none :: ys, hr => by simp [related] at hr
-  | some x :: xs, some y :: ys, hr => by simp only [related] at hr; simp [related_length xs ys hr.2]
 
 theorem find?_congr' {p q : Nat → Bool} : ∀ (l : List Nat), (∀ x, x ∈ l → p x = q x) → l.find? p = l.find? q
   | [], _ => rfl
@@ -2767,7 +3006,8 @@ theorem migrateMat_refused_state (s : Store) (m n : Nat) (memo : Memo)
 
 /-! ## `unify_taxa_by_label=False`: distinct taxon objects stay distinct -/
 
-/-- PARTIAL (one and two items; not lifted to whole `mapTaxa` runs with a memo): with `unify_taxa_by_label=False` an item whose
+/-- PARTIAL (one and two items; the WHOLE-PASS statements are `mapTaxa_fresh_spec`, `migrateTree_fresh_spec`, `migrateTl_fresh_spec` below,
+which subsume this one): with `unify_taxa_by_label=False` an item whose
 taxon `x` is not a member of the target and not yet in the memo is put on a brand-new taxon — not a member before (so distinct
 from every taxon the namespace held, also from those with the same label), carrying exactly `x`'s label, and remembered in the
 memo; a second such item with a different taxon gets a different new taxon; an item whose taxon is a member keeps it. -/
@@ -3444,6 +3684,34 @@ theorem fresh_step (s : Store) (op : Op) (h : FrAll s) : FrAll (step s op).1 := 
   | trec t u => simp only [step]; exact (frAll_migrateTree h t _ u [] (mv_nil s)).1
   | lmig l n u => simp only [step]; exact (frAll_migrateTl h l n u [] (mv_nil s)).1
   | lrec l u => simp only [step]; exact (frAll_migrateTl h l _ u [] (mv_nil s)).1
+  | tassign t n a =>
+    cases a with
+    | true => simp only [step]; split; exact h; exact (frAll_migrateTree h t n true [] (mv_nil s)).1
+    | false => simp only [step]; exact (frAll_addTree h t n).1
+  | lassign l n a =>
+    cases a with
+    | true => simp only [step]; split; exact h; exact (frAll_migrateTl h l n true [] (mv_nil s)).1
+    | false => simp only [step]; exact frAll_addTl h l n
+  | massign m n a =>
+    cases a with
+    | true => simp only [step]; split; exact h; exact (frAll_migrateMat h m n true [] (mv_nil s)).1
+    | false => simp only [step]; exact frAll_addMat h m n
+  | mcomb m m2 a =>
+    simp only [step]
+    split
+    · cases a with
+      | false => exact h
+      | true =>
+        simp only [if_true]
+        apply frAll_setMat h m
+        intro x hx
+        rcases mergeKeys_sub' _ _ x hx with hx | hx
+        · exact h.mat m x hx
+        · exact h.mat m2 x hx
+    · exact h
+  | tpurge t => simp only [step]; exact frAll_purge h _ _
+  | lpurge l => simp only [step]; exact frAll_purge h _ _
+  | mpurge m => simp only [step]; exact frAll_purge h _ _
   | mmig m n u => simp only [step]; exact (frAll_migrateMat h m n u [] (mv_nil s)).1
   | mrec m u => simp only [step]; exact (frAll_migrateMat h m _ u [] (mv_nil s)).1
   | mset m n i =>
@@ -3663,6 +3931,263 @@ theorem closed_reachable_driver (ops : List Op) (hv : validHist init ops = true)
   rw [runG_eq_run ops init hv]
   exact ⟨closed_reachable ops init Aux.inv_init hv, fresh_reachable ops init Fresh.frAll_init⟩
 
+/-! ## `unify_taxa_by_label=False` over whole passes: distinct taxon objects stay distinct, shared ones stay shared -/
+
+section FreshPass
+open Pass
+
+namespace Aux
+
+/-- the trees of a collection under ONE non-unifying pass with a shared memo (pairwise different tree objects) -/
+theorem migrateTrees_fresh {b : Nat} {M0 : List Nat} {L0 : Nat → String} (n : Nat) : ∀ (ts : List Nat) (s : Store) (m : Memo),
+    ts.Nodup → PassF b M0 L0 n s m → (∀ t, t ∈ ts → ∀ x, some x ∈ (s.tree t).taxa → x < b) →
+    PassF b M0 L0 n (migrateTrees s n false m ts).1 (migrateTrees s n false m ts).2
+    ∧ (∀ t, t ∈ ts → ((migrateTrees s n false m ts).1.tree t).ns = n
+        ∧ related (RF M0 (migrateTrees s n false m ts).2) (s.tree t).taxa ((migrateTrees s n false m ts).1.tree t).taxa)
+    ∧ (∀ q z, memoGet m q = some z → memoGet (migrateTrees s n false m ts).2 q = some z)
+    ∧ (∀ t', t' ∉ ts → (migrateTrees s n false m ts).1.tree t' = s.tree t')
+  | [], s, m, _, P, _ => ⟨P, by simp, fun _ _ h => h, fun _ _ => rfl⟩
+  | t :: ts, s, m, hnd, P, hx => by
+    simp only [migrateTrees]
+    have hnd' := List.nodup_cons.mp hnd
+    obtain ⟨P1, r1, g1⟩ := mapTaxa_fresh n (s.tree t).taxa s m P (hx t (by simp))
+    have P1' : PassF b M0 L0 n (migrateTree s t n false m).1 (migrateTree s t n false m).2 := by
+      simp only [migrateTree]
+      exact passF_of_eq P1 rfl rfl rfl
+    have hx' : ∀ t', t' ∈ ts → ∀ x, some x ∈ ((migrateTree s t n false m).1.tree t').taxa → x < b := by
+      intro t' ht' x hxin
+      have ne : t' ≠ t := fun e => hnd'.1 (e ▸ ht')
+      rw [migrateTree_frame s t n false m t' ne] at hxin
+      exact hx t' (by simp [ht']) x hxin
+    obtain ⟨P2, r2, g2, f2⟩ := migrateTrees_fresh n ts _ _ hnd'.2 P1' hx'
+    refine ⟨P2, ?_, fun q z h => g2 q z (by simp only [migrateTree]; exact g1 q z h), ?_⟩
+    · intro t' ht'
+      simp at ht'
+      rcases ht' with e | ht'
+      · subst e
+        rw [f2 t' hnd'.1]
+        refine ⟨by simp [migrateTree, setTree, upd], ?_⟩
+        have : ((migrateTree s t' n false m).1.tree t').taxa = (mapTaxa s n false m (s.tree t').taxa).2.2 := by
+          simp [migrateTree, setTree, upd]
+        rw [this]
+        refine related_mono _ _ ?_ r1
+        intro x y _ hr
+        exact rf_mono (fun q z h => g2 q z (by simp only [migrateTree]; exact h)) hr
+      · have ne : t' ≠ t := fun e => hnd'.1 (e ▸ ht')
+        obtain ⟨a, c⟩ := r2 t' ht'
+        rw [migrateTree_frame s t n false m t' ne] at c
+        exact ⟨a, c⟩
+    · intro t' hn
+      simp at hn
+      rw [f2 t' hn.2, migrateTree_frame s t n false m t' hn.1]
+
+end Aux
+
+/-- `unify_taxa_by_label=False`, A WHOLE PASS over the node taxa `xs` of a tree into namespace `n` (fresh memo, as `migrate_taxon_namespace`
+/ `reconstruct_taxon_namespace` start it): nothing is dropped or invented; a node whose taxon is a member of `n` keeps it; a node whose
+taxon `x` is foreign ends on a taxon CREATED by the pass (`≥ nTaxa`: not a member before, hence different from every taxon the
+namespace held, also those with the same label), a member of `n` afterwards, carrying exactly `x`'s label; and any two nodes sit on
+one taxon afterwards exactly when they sat on one taxon before — distinct taxon objects stay distinct (also with equal labels), one
+taxon object is never split. -/
+theorem mapTaxa_fresh_spec (s : Store) (n : Nat) (xs : List (Option Nat)) (hf : FreshNs s n) (hx : ∀ x, some x ∈ xs → x < s.nTaxa) :
+    related (fun x y => (x ∈ mem s n → y = x) ∧
+        (x ∉ mem s n → s.nTaxa ≤ y ∧ y ∉ mem s n ∧ y ∈ mem (mapTaxa s n false [] xs).1 n
+          ∧ (mapTaxa s n false [] xs).1.label y = s.label x))
+      xs (mapTaxa s n false [] xs).2.2
+    ∧ (∀ (i j x x' y y' : Nat), xs[i]? = some (some x) → xs[j]? = some (some x') →
+        (mapTaxa s n false [] xs).2.2[i]? = some (some y) → (mapTaxa s n false [] xs).2.2[j]? = some (some y') →
+        (y = y' ↔ x = x')) := by
+  obtain ⟨P, r, _⟩ := mapTaxa_fresh n xs s [] (passF_start s n hf) hx
+  refine ⟨?_, ?_⟩
+  · refine Aux.related_mono _ _ ?_ r
+    intro x y _ hr
+    exact passF_item P hr
+  · intro i j x x' y y' h1 h2 h3 h4
+    exact passF_pair P (hx x (List.mem_of_getElem? h1)) (hx x' (List.mem_of_getElem? h2))
+      (Aux.related_get _ _ i x y r h1 h3) (Aux.related_get _ _ j x' y' r h2 h4)
+
+/-- `Tree.migrate_taxon_namespace(ns, unify_taxa_by_label=False)` / `reconstruct_taxon_namespace(unify_taxa_by_label=False)` in any
+store whose ids are allocated (`fresh_reachable`: every reachable store): the tree is bound to `n` and `mapTaxa_fresh_spec` holds
+between its old and its new node taxa -/
+theorem migrateTree_fresh_spec (s : Store) (t n : Nat) (hfr : Fresh.FrAll s) :
+    ((migrateTree s t n false []).1.tree t).ns = n
+    ∧ related (fun x y => (x ∈ mem s n → y = x) ∧
+        (x ∉ mem s n → s.nTaxa ≤ y ∧ y ∉ mem s n ∧ y ∈ mem (migrateTree s t n false []).1 n
+          ∧ (migrateTree s t n false []).1.label y = s.label x))
+        (s.tree t).taxa ((migrateTree s t n false []).1.tree t).taxa
+    ∧ (∀ (i j x x' y y' : Nat), (s.tree t).taxa[i]? = some (some x) → (s.tree t).taxa[j]? = some (some x') →
+        ((migrateTree s t n false []).1.tree t).taxa[i]? = some (some y) →
+        ((migrateTree s t n false []).1.tree t).taxa[j]? = some (some y') → (y = y' ↔ x = x')) := by
+  obtain ⟨a, c⟩ := mapTaxa_fresh_spec s n (s.tree t).taxa (hfr.ns n) (hfr.tree t)
+  have e : ((migrateTree s t n false []).1.tree t).taxa = (mapTaxa s n false [] (s.tree t).taxa).2.2 := by
+    simp [migrateTree, setTree, upd]
+  refine ⟨by simp [migrateTree, setTree, upd], ?_, ?_⟩
+  · rw [e]
+    exact a
+  · rw [e]; exact c
+
+/-- `unify_taxa_by_label=False` ACROSS THE TREES OF A COLLECTION (`TreeList.migrate_taxon_namespace(ns, unify_taxa_by_label=False)` /
+`reconstruct_taxon_namespace`: one memo handed from tree to tree).  For a list of pairwise different tree objects: the list and every
+tree are bound to `n`, every tree keeps its shape, members of `n` are kept, a foreign taxon lands on a taxon created by the pass (not a
+member before, a member now, same label) — and two nodes ANYWHERE in the list sit on one taxon afterwards exactly when they sat on one
+taxon before: a taxon object shared by two trees is still shared (the memo), distinct objects stay distinct. -/
+theorem migrateTl_fresh_spec (s : Store) (l n : Nat) (hnd : (s.tl l).trees.Nodup) (hfr : Fresh.FrAll s) :
+    ((migrateTl s l n false []).1.tl l).ns = n
+    ∧ (∀ t, t ∈ (s.tl l).trees → ((migrateTl s l n false []).1.tree t).ns = n
+        ∧ related (fun x y => (x ∈ mem s n → y = x) ∧
+            (x ∉ mem s n → s.nTaxa ≤ y ∧ y ∉ mem s n ∧ y ∈ mem (migrateTl s l n false []).1 n
+              ∧ (migrateTl s l n false []).1.label y = s.label x))
+            (s.tree t).taxa ((migrateTl s l n false []).1.tree t).taxa)
+    ∧ (∀ (t t' i j x x' y y' : Nat), t ∈ (s.tl l).trees → t' ∈ (s.tl l).trees →
+        (s.tree t).taxa[i]? = some (some x) → (s.tree t').taxa[j]? = some (some x') →
+        ((migrateTl s l n false []).1.tree t).taxa[i]? = some (some y) →
+        ((migrateTl s l n false []).1.tree t').taxa[j]? = some (some y') → (y = y' ↔ x = x')) := by
+  simp only [migrateTl]
+  have P0 : PassF s.nTaxa (mem s n) s.label n { s with tl := upd s.tl l { (s.tl l) with ns := n } } [] :=
+    passF_of_eq (passF_start s n (hfr.ns n)) rfl rfl rfl
+  obtain ⟨P, r, _, _⟩ := Aux.migrateTrees_fresh n (s.tl l).trees _ [] hnd P0 (fun t _ x hx => hfr.tree t x hx)
+  refine ⟨?_, ?_, ?_⟩
+  · rw [Aux.migrateTrees_tl]; simp [upd]
+  · intro t ht
+    obtain ⟨a, c⟩ := r t ht
+    refine ⟨a, Aux.related_mono _ _ ?_ c⟩
+    intro x y _ hr
+    exact passF_item P hr
+  · intro t t' i j x x' y y' ht ht' h1 h2 h3 h4
+    exact passF_pair P (hfr.tree t x (List.mem_of_getElem? h1)) (hfr.tree t' x' (List.mem_of_getElem? h2))
+      (Aux.related_get _ _ i x y (r t ht).2 h1 h3) (Aux.related_get _ _ j x' y' (r t' ht').2 h2 h4)
+
+/-- ... in any reachable world, with no side condition but that the list names no tree object twice -/
+theorem migrateTl_fresh_reachable (ops : List Op) (l n : Nat) (hnd : ((run init ops).tl l).trees.Nodup) :
+    ∀ (t t' i j x x' y y' : Nat), t ∈ ((run init ops).tl l).trees → t' ∈ ((run init ops).tl l).trees →
+        ((run init ops).tree t).taxa[i]? = some (some x) → ((run init ops).tree t').taxa[j]? = some (some x') →
+        ((migrateTl (run init ops) l n false []).1.tree t).taxa[i]? = some (some y) →
+        ((migrateTl (run init ops) l n false []).1.tree t').taxa[j]? = some (some y') → (y = y' ↔ x = x') :=
+  (migrateTl_fresh_spec (run init ops) l n hnd (fresh_reachable ops init Fresh.frAll_init)).2.2
+
+end FreshPass
+
+/-! ## Tie A: the decision kernels regenerated from the source (`Gen/C11Kernels.lean`) are the ones the model hard-wires -/
+
+section Bridge
+open DendroModel.Gen.C11Kernels
+
+/-- the strategy names of the code -/
+def stratName : Strat → String
+  | .migrate => "migrate"
+  | .add => "add"
+
+/-- K1 + K2: `TreeList._import_tree_to_taxon_namespace` as regenerated from the source dispatches exactly as the model's `importTree`
+(the same-object test first; `migrate` = `migrate_taxon_namespace` with ITS default unify flag and a fresh memo; `add` = re-bind +
+`update_taxon_namespace`), and no strategy name the driver can send is refused -/
+theorem importTree_bridge (s : Store) (n : Nat) (st : Strat) (t : Nat) :
+    importTree s n st t =
+      match importAct (decide ((s.tree t).ns = n)) (stratName st) with
+      | .keep => s
+      | .migrate => (migrateTree s t n migrateUnifyDefault []).1
+      | .add => addTree s t n
+      | .refuse => s := by
+  unfold importTree
+  by_cases e : (s.tree t).ns = n <;> cases st <;> simp [importAct, stratName, e, migrateUnifyDefault]
+
+/-- `insert` / `append` / `tl[i] = t` / slice assignment without a strategy argument use the default, which is the strategy the model's
+`setitem` / `srcInto` hard-wire -/
+theorem importDefault_bridge : stratName .migrate = importDefault := by decide
+
+/-- K3: the node guard of `Tree.reconstruct_taxon_namespace` is the guard of `mapOne` (nodes without taxon are skipped by `mapTaxa`) -/
+theorem mapOne_guard_bridge (s : Store) (n : Nat) (u : Bool) (memo : Memo) (x : Nat) :
+    (nodeGuard true u ((mem s n).contains x) = false → mapOne s n u memo x = (s, memo, x))
+    ∧ (nodeGuard true u ((mem s n).contains x) = true → mapOne s n u memo x =
+        match memoGet memo x with
+        | some t => (addMember s n t, memo, t)
+        | none =>
+          let r := if u then require s n (s.ns n).cs (s.label x) else newTaxon s n (s.label x)
+          (r.1, (x, r.2) :: memo, r.2))
+    ∧ (∀ u' m', nodeGuard false u' m' = false) := by
+  refine ⟨?_, ?_, by intro u' m'; simp [nodeGuard]⟩
+  · intro h
+    simp only [nodeGuard, Bool.not_true, Bool.not_false, Bool.true_and] at h
+    unfold mapOne
+    rw [h]; rfl
+  · intro h
+    simp only [nodeGuard, Bool.not_true, Bool.not_false, Bool.true_and] at h
+    unfold mapOne
+    rw [h]; rfl
+
+/-- K3: the key guard of `CharacterMatrix.reconstruct_taxon_namespace` is the guard of `mapKeys` -/
+theorem mapKeys_guard_bridge (s : Store) (n : Nat) (u : Bool) (memo : Memo) (cur : List Nat) (x : Nat) (xs : List Nat) :
+    keyGuard u ((mem s n).contains x) = false → mapKeys s n u memo cur (x :: xs) = mapKeys s n u memo cur xs := by
+  intro h
+  simp only [keyGuard] at h
+  simp only [mapKeys, h]
+  simp
+
+/-- K4: the `taxon_namespace` setter as regenerated from the source is what `tassign` / `lassign` / `massign` do: with automigrate a
+`migrate_taxon_namespace` (default flag) unless the object already bound is assigned; without, a plain re-binding (which the ops follow
+with `update_taxon_namespace()`) -/
+theorem setter_bridge (s : Store) (t l m n : Nat) :
+    ((step s (.tassign t n true)).1 = match setterAct true false (decide ((s.tree t).ns = n)) with
+        | .migrate => (migrateTree s t n migrateUnifyDefault []).1 | _ => s)
+    ∧ ((step s (.lassign l n true)).1 = match setterAct true false (decide ((s.tl l).ns = n)) with
+        | .migrate => (migrateTl s l n migrateUnifyDefault []).1 | _ => s)
+    ∧ ((step s (.massign m n true)).1 = match setterAct true false (decide ((s.mat m).ns = n)) with
+        | .migrate => (migrateMat s m n migrateUnifyDefault []).1 | _ => s)
+    ∧ (∀ same, setterAct false false same = .rebind) := by
+  refine ⟨?_, ?_, ?_, by intro same; cases same <;> rfl⟩
+  · by_cases e : (s.tree t).ns = n <;> simp [step, setterAct, e, migrateUnifyDefault]
+  · by_cases e : (s.tl l).ns = n <;> simp [step, setterAct, e, migrateUnifyDefault]
+  · by_cases e : (s.mat m).ns = n <;> simp [step, setterAct, e, migrateUnifyDefault]
+
+/-- K5: `TreeList.reconstruct_taxon_namespace` hands ONE memo and its own flag from tree to tree, and `DataSet.unify_taxon_namespaces`
+ONE memo through all tree lists and matrices with the literal flag — which is how `migrateTrees` / `migrateTls` / `migrateMats` thread
+theirs -/
+theorem shared_memo_bridge (s : Store) (n : Nat) (u : Bool) (memo : Memo) (t l m : Nat) (ts ls ms : List Nat) :
+    migrateTrees s n u memo (t :: ts)
+      = migrateTrees (migrateTree s t n (if listPassesUnify then u else reconstructUnifyDefault) memo).1 n u
+          (if listMemoShared then (migrateTree s t n u memo).2 else []) ts
+    ∧ migrateTls s n memo (l :: ls)
+      = migrateTls (migrateTl s l n dsUnify memo).1 n (if dsMemoShared then (migrateTl s l n dsUnify memo).2 else []) ls
+    ∧ ((migrateMat s m n dsUnify memo).2.2 = true → migrateMats s n memo (m :: ms)
+      = migrateMats (migrateMat s m n dsUnify memo).1 n (if dsMemoShared then (migrateMat s m n dsUnify memo).2.1 else []) ms) := by
+  refine ⟨by simp [migrateTrees, listPassesUnify, listMemoShared], by simp [migrateTls, dsUnify, dsMemoShared], ?_⟩
+  intro h
+  simp only [dsUnify] at h
+  simp [migrateMats, dsUnify, dsMemoShared, h]
+
+end Bridge
+
+/-! ## `purge_taxon_namespace` -/
+
+/-- `purge_taxon_namespace()` keeps closure (clauses a and c) when the purging object is the only user of its namespace: for a tree
+list, when every tree bound to the list's namespace is one of its own and no matrix is bound to it.  (Documented to look at `self`
+only; with other users their taxa are removed from under them, which is why the op is outside `valid`.)  What is kept is exactly the
+members the list's trees refer to, in their old order — nothing referenced is dropped. -/
+theorem purge_closed (s : Store) (l : Nat) (h : Aux.Inv s)
+    (hown : ∀ t, (s.tree t).ns = (s.tl l).ns → (s.tree t).taxa ≠ [] → t ∈ (s.tl l).trees)
+    (hmat : ∀ m, (s.mat m).ns = (s.tl l).ns → (s.mat m).keys = []) :
+    Aux.Inv (step s (.lpurge l)).1
+    ∧ mem (step s (.lpurge l)).1 (s.tl l).ns
+        = (mem s (s.tl l).ns).filter (fun x => ((s.tl l).trees.flatMap (fun t => (s.tree t).taxa.filterMap id)).contains x)
+    ∧ (∀ t x, t ∈ (s.tl l).trees → some x ∈ (s.tree t).taxa → x ∈ mem (step s (.lpurge l)).1 (s.tl l).ns) := by
+  have keepOk : ∀ t x, t ∈ (s.tl l).trees → some x ∈ (s.tree t).taxa →
+      x ∈ (s.tl l).trees.flatMap (fun t => (s.tree t).taxa.filterMap id) := by
+    intro t x ht hx
+    refine List.mem_flatMap.mpr ⟨t, ht, ?_⟩
+    exact List.mem_filterMap.mpr ⟨some x, hx, rfl⟩
+  have i : Aux.Inv (step s (.lpurge l)).1 := by
+    simp only [step]
+    apply Aux.inv_purge h
+    · intro t x e hx
+      exact keepOk t x (hown t e (by intro c; rw [c] at hx; simp at hx)) hx
+    · intro m x e hx
+      rw [hmat m e] at hx; simp at hx
+  refine ⟨i, by simp [step, purge, mem, upd], ?_⟩
+  intro t x ht hx
+  have := i.treeOk t x (by simpa [step, purge] using hx)
+  have e : ((step s (.lpurge l)).1.tree t).ns = (s.tl l).ns := by
+    simp only [step, purge]; exact h.listOk l t ht
+  rw [e] at this; exact this
+
 /-! ## non-vacuity: the hypotheses are satisfiable and the conclusions are not trivial -/
 
 /-- a foreign tree appended to a list of another namespace: valid, covered, and the world stays closed -/
@@ -3707,6 +4232,14 @@ example := migrateTl_unify_spec demo2 0 0 [] (by decide +kernel) (fresh_reachabl
 example : ((migrateTl demo2 0 0 true []).1.tree 0).taxa = [some 5, some 0] ∧ ((migrateTl demo2 0 0 true []).1.tree 1).taxa = [some 0, some 0]
     ∧ mem (migrateTl demo2 0 0 true []).1 0 = [0, 1, 5] := by decide +kernel
 
+/-- `migrateTl_fresh_spec` applies to `demo2` (two trees of namespace 1 sharing the taxon `a`) with every hypothesis PROVED ... -/
+example := migrateTl_fresh_spec demo2 0 0 (by decide +kernel) (fresh_reachable _ init Fresh.frAll_init)
+
+/-- ... and the conclusion is not trivial: `C`, `a`, `A` get three NEW taxa 5, 6, 7 in the case-insensitive namespace 0 that already
+holds an `A` (nothing is unified), and the taxon `a` shared by the two trees is still shared (6) -/
+example : ((migrateTl demo2 0 0 false []).1.tree 0).taxa = [some 5, some 6] ∧ ((migrateTl demo2 0 0 false []).1.tree 1).taxa = [some 7, some 6]
+    ∧ mem (migrateTl demo2 0 0 false []).1 0 = [0, 1, 5, 6, 7] := by decide +kernel
+
 /-- `cloneTree_spec` with its hypotheses proved for a reachable world (closure by `closed_reachable`, freshness by `fresh_reachable`) -/
 example := cloneTree_spec demo2 1 0
   (closed_reachable _ init Aux.inv_init (by decide +kernel)) (fresh_reachable _ init Fresh.frAll_init) (by decide +kernel)
@@ -3743,5 +4276,44 @@ example : ¬ Closed (run init [.ns false ["A"], .ns false ["B"], .tree 0 [some 0
   have := h.listOk 0 0 (by decide +kernel)
   revert this
   decide +kernel
+
+/-- a world for `purge_closed`: one namespace (0) with members 0, 1, 2; one tree on taxon 1; one list holding it -/
+def demoP : Store :=
+  { label := fun x => if x = 0 then "A" else if x = 1 then "b" else "C", nTaxa := 3,
+    ns := fun n => if n = 0 then { members := [0, 1, 2] } else {}, nNs := 1,
+    tree := fun t => if t = 0 then { ns := 0, taxa := [none, some 1] } else { ns := 1, taxa := [] }, nTree := 1,
+    tl := fun l => if l = 0 then { ns := 0, trees := [0] } else { ns := 1, trees := [] }, nTl := 1,
+    mat := fun _ => { ns := 1, keys := [] } }
+
+theorem Aux.demoP_inv : Aux.Inv demoP := by
+  refine ⟨⟨?_, ?_, ?_, ?_⟩, ?_, ?_, ?_, ?_⟩
+  · intro t x hx
+    by_cases e : t = 0
+    · subst e; simp [demoP] at hx; subst hx; simp [demoP, mem]
+    · simp [demoP, e] at hx
+  · intro m x hx; simp [demoP] at hx
+  · intro l t ht
+    by_cases e : l = 0
+    · subst e; simp [demoP] at ht; subst ht; simp [demoP]
+    · simp [demoP, e] at ht
+  · intro d a ha; simp [demoP] at ha
+  · intro l hl
+    have : l ≠ 0 := by simp [demoP] at hl; omega
+    simp [demoP, this]
+  · intro d _; simp [demoP]
+  · intro l t ht
+    by_cases e : l = 0
+    · subst e; simp [demoP] at ht; subst ht; simp [demoP]
+    · simp [demoP, e] at ht
+  · intro d; simp [demoP]
+
+example := purge_closed demoP 0 Aux.demoP_inv
+  (by intro t e ne
+      by_cases c : t = 0
+      · subst c; simp [demoP]
+      · simp [demoP, c] at ne)
+  (by intro m _; simp [demoP])
+
+example : mem (step demoP (.lpurge 0)).1 0 = [1] := by decide +kernel
 
 end DendroModel.C11
